@@ -60,7 +60,7 @@ theorem success_means_every_step_succeeded (cfg : Cfg) (w w' : World)
     forEachCollect_false h5, forEachCollect_false h6, forEachCollect_false h7, hw'.symm⟩
 
 /-- T09.1b in particular the restore helpers do not swallow errors: when the backup's `Open` fails
-(or `Stat`, or the base's `RemoveAll`), `restoreFile` fails. -/
+(or `Stat`, or the base's `Remove`/`RemoveAll` of what is in the way), `restoreFile` fails. -/
 theorem restoreFile_propagates_open_error (cfg : Cfg) (name : Path) (fi : Info) (w w' : World) (e : Err)
     (h : primOpen cfg .backup (.open_ name) w = (w', .error e)) :
     restoreFile cfg name fi w = (w', .error e) := by
